@@ -1,6 +1,7 @@
 import Refine.Lemmas.ReconParHess
 import Refine.Lemmas.ReconParKexact
 import Refine.Lemmas.ReconParCounter
+import Refine.Lemmas.ReconParCells
 import Refine.Props.C19
 import Refine.Props.C19Kexact
 
@@ -27,9 +28,23 @@ import Refine.Props.C19Kexact
 namespace Refine.Props.C19Par
 open Refine Refine.Model.Geom Refine.Model.Recon Refine.Model.ReconPar Refine.ScalarReal Refine.GeomReal
 open Refine.ReconReal Refine.ReconParGhost Refine.ReconParMesh Refine.ReconParHess Refine.ReconParKexact
-open Refine.ReconParCounter
+open Refine.ReconParCounter Refine.ReconParCells
 open Refine.Model.Comm (World RefType)
 open Refine.Model.Kexact (Item KSt grow kexactNode kexactWithAux layerLoop)
+
+/-! ### clause (ii) -/
+
+/-- **clause (ii) of the distributed invariant, at the cell level, gives `DistOK.complete`**: if the cells stored on a
+    rank that are incident to the stored vertex `i`, renamed to global ids, are — as a multiset — the cells of the
+    global mesh incident to that vertex (every cell around it is stored on this rank, once), then the stored
+    sub-simplices around it (the C's tet decomposition of pyramids / prisms / hexes in 3-D, the triangle split of
+    quads in 2-D) are the global ones.  `CellWF`: a cell has as many vertices as its kind says -/
+theorem complete_of_cells_stored (twod : Bool) (gcells : List Cell) (r : Rank) (i : Nat)
+    (hL : ∀ c ∈ r.cells, CellWF c) (hG : ∀ c ∈ gcells, CellWF c)
+    (h : ((r.cells.map (globCell r.l2g)).filter (cellTouches (gOf r.l2g i))).Perm
+      (gcells.filter (cellTouches (gOf r.l2g i)))) :
+    CompleteAt twod gcells r i :=
+  completeAt_of_cells twod gcells r i hL hG h
 
 /-! ### L2 projection -/
 
